@@ -1,3 +1,50 @@
-Require Import Base Opcode Tables Ops Tree Opt Flat Run.
-Example placeholder_C04 : True. Proof. exact I. Qed.
-Print Assumptions placeholder_C04.
+(* C04 — TryEval answers are never contradicted by fetching more variables.
+   Statements about `trysem`, the tree-level meaning of TryEval (tied to the Go TryEval and to the model of its
+   loop `tryrun` by the correspondence); proofs in Proofs/TrySound.v. *)
+Require Import Base Opcode Tables Ops Tree Opt Flat Run TryFacts TrySound.
+Open Scope Z_scope.
+
+(* a definite answer (v <> VDNE) of TryEval under availability `cached` is the value Eval returns under EVERY
+   completion fetch' of the unavailable variables for which Eval succeeds — for every tree, hence for
+   optimize cfg t under every option subset *)
+Theorem C04_sound : forall custom fetch cached fetch',
+  (forall n k, cached n k = true -> fetch' n k = fetch n k) ->
+  forall t v v', snd (trysem fetch custom cached t) = Ok v -> snd (sem fetch' custom t) = Ok v' ->
+  v = VDNE \/ v = v'.
+Proof. exact try_sound. Qed.
+
+(* making more variables available never changes a definite answer *)
+Theorem C04_monotone : forall custom fetch cached1 cached2,
+  (forall n k, cached1 n k = true -> cached2 n k = true) ->
+  forall t v v', snd (trysem fetch custom cached1 t) = Ok v -> snd (trysem fetch custom cached2 t) = Ok v' ->
+  v = VDNE \/ v = v'.
+Proof. exact try_mono. Qed.
+
+(* all variables available: a value TryEval returns is the value Eval returns, whenever Eval returns one.
+   PARTIAL with respect to the sentence "TryEval and Eval agree": on ill-typed expressions outside C01's domain
+   Eval can return a value where TryEval reports the operator's type error (see C04_agree_refuted). *)
+Theorem C04_agree_on_values_partial : forall custom fetch t v v',
+  snd (trysem fetch custom all_cached t) = Ok v -> snd (sem fetch custom t) = Ok v' -> v = VDNE \/ v = v'.
+Proof. exact try_eval_agree_on_values. Qed.
+
+(* the witness of the strict reading failing (recorded in known_findings.json): (and 5 true), everything
+   available: Eval returns true (the last operand's value), TryEval applies `and` and reports its type error *)
+Definition nofetch (n : str) (k : Z) : res value := Err (EUnbound n).
+Definition nocustom (n : str) (a : list value) : res value := Err (EOther 0).
+Example C04_agree_refuted :
+  let t := TOp (ss "and") false [TConst (VInt 5); TConst (VBool true)] in
+  snd (sem nofetch nocustom t) = Ok (VBool true) /\
+  snd (trysem nofetch nocustom all_cached t) = Err (EType (ss "and")).
+Proof. vm_compute. split; reflexivity. Qed.
+
+(* non-vacuity: a definite answer with an unavailable operand *)
+Definition ex_fetch (n : str) (k : Z) : res value := if str_eqb n (ss "a") then Ok (VBool false) else Ok (VInt 0).
+Definition ex_cached (n : str) (k : Z) : bool := str_eqb n (ss "a").
+Example C04_ex :
+  snd (trysem ex_fetch nocustom ex_cached
+        (TOp (ss "and") false [TOp (ss "=") false [TConst (VInt 1); TOp (ss "/") false [TConst (VInt 1); TVar (ss "z") 2]]; TVar (ss "a") 1]))
+  = Ok (VBool false).
+Proof. vm_compute. reflexivity. Qed.
+
+Print Assumptions C04_sound.
+Print Assumptions C04_monotone.
